@@ -87,6 +87,14 @@ func (association *Association) Replace(values ...interface{}) error {
 				}
 			}
 			if _, fvs := schema.GetIdentityFieldValuesMap(association.DB.Statement.Context, reflectValue, foreignFields); len(fvs) > 0 {
+				// keep the old key by value: a pointer key is overwritten in place when the new target is saved
+				for _, fv := range fvs {
+					for i, v := range fv {
+						if rv := reflect.ValueOf(v); rv.Kind() == reflect.Ptr && !rv.IsNil() {
+							fv[i] = rv.Elem().Interface()
+						}
+					}
+				}
 				column, values := schema.ToQueryValues(rel.FieldSchema.Table, rel.FieldSchema.PrimaryFieldDBNames, fvs)
 				oldBelongsToExpr = clause.IN{Column: column, Values: values}
 			}
@@ -117,8 +125,15 @@ func (association *Association) Replace(values ...interface{}) error {
 
 				association.Error = association.DB.UpdateColumns(updateMap).Error
 			}
-			if association.Unscope && oldBelongsToExpr != nil {
-				association.Error = association.DB.Model(nil).Where(oldBelongsToExpr).Delete(reflect.New(rel.FieldSchema.ModelType).Interface()).Error
+			if association.Unscope && oldBelongsToExpr != nil && association.Error == nil {
+				// a fresh statement: association.DB still carries what the update above left behind
+				tx := association.DB.Session(&Session{NewDB: true}).Where(oldBelongsToExpr)
+				// a record that is (still or again) the target keeps its row
+				if _, tvs := schema.GetIdentityFieldValuesMapFromValues(association.DB.Statement.Context, values, rel.FieldSchema.PrimaryFields); len(tvs) > 0 {
+					tcolumn, tvalues := schema.ToQueryValues(rel.FieldSchema.Table, rel.FieldSchema.PrimaryFieldDBNames, tvs)
+					tx = tx.Not(clause.IN{Column: tcolumn, Values: tvalues})
+				}
+				association.Error = tx.Delete(reflect.New(rel.FieldSchema.ModelType).Interface()).Error
 			}
 		case schema.HasOne, schema.HasMany:
 			var (
